@@ -19,6 +19,14 @@ for net, q, idx, dc, tiers in ((2, 0, 1, 1, ("quick", "thorough")), (2, 2, 1, 0,
         harness=B + "ZZVerif_C12_ClaimProof", params={"NET": net, "Q": q, "IDX": idx, "DC": dc}, tiers=tiers,
         reach=[("mainnet" if q == 0 else "rollup") if cov else "refused"], time_limit_s=3000,
         bounds="exit trees of 3 arbitrary leaves each, two L1 info leaves with arbitrary contents, rollup exit tree with arbitrary neighbours; request parameters concrete"))
+for net, q, idx, mask, tiers in ((2, 0, 2, 0b0000, ("quick", "thorough")), (2, 2, 1, 0b1101, ("quick", "thorough")), (2, 2, 3, 0b0111, ("quick", "thorough")),
+                                 (2, 0, 4, 0b1111, ("thorough",)), (2, 2, 0, 0b0001, ("thorough",)), (3, 2, 0, 0b1111, ("thorough",)), (1, 1, 2, 0b0100, ("thorough",)),
+                                 (2, 2, 2, 0b1000, ("thorough",))):
+    OBLIGATIONS.append(dict(
+        name="C12.c injected L1 info leaf through the real handler: node of network %d asked for network %d, index %d, injected indexes %s" % (
+            net, q, idx, [j for j in range(4) if mask >> j & 1]),
+        harness=B + "ZZVerif_C12_InjectedLeaf", params={"NET": net, "Q": q, "IDX": idx, "MASK": mask}, tiers=tiers, time_limit_s=1500,
+        bounds="four L1 info leaves with arbitrary contents; request parameters concrete"))
 ASSUMPTIONS = ["the L1 info syncer and the bridge syncers answer as C01/C08/C11 establish for the real ones (fakes in the harness: lookups over ordered lists)",
                "exit roots are distinct tags; the deposit index of an exit root is the index of the last leaf it contains",
                "L2: every rollup exit root produced by a verify-batches event is carried by an L1 info leaf (the protocol assumption stated in the code)"]
